@@ -59,6 +59,12 @@ CHECKS = {
   text="9 script families (value, binding, throwing, undefined variable, syntax error, non-terminating with Env.sleep, slow-but-finishing at 4/6/12 ms) x 12 timeout settings (Control.JavascriptTimeout {0,5ms,negative} x DefaultJavascriptTimeout {10ms,negative} x JavascriptTimeouts on/off) x 3 contexts (Location.RunJavascript, rule condition, rule action through ProcessEvent) run under the scheduler with virtual time; every schedule with at most 2 deviations (3 thorough), where the watchdog timer landing early at any scheduling point is a deviation. The caller must return on every schedule; an overrunning script must yield an error / non-complete node within limit + one wait quantum; throwing and invalid scripts yield errors; within-limit scripts return their value. Busy loops without a scheduling point run natively in child processes against a 20 s deadline (3 isolated runs).",
   note="Code between scheduling points takes no virtual time; an early timer landing models slow real execution, so a finishing script may then end either way (but never hang, never success with a nil value).",
   design="2/C14"),
+ "C15": dict(
+  engine="SEQ+SCHED",
+  technique="explicit-state model checking: exhaustive BFS over scheduled-rule histories on sys.System with a recording cron service and a which-rule-is-live-where model, plus stateless schedule exploration of the same kinds of history against the real built-in cron under the controlled scheduler with virtual time",
+  text="Sequential: BFS (one location to depth 5 / 7 thorough; two locations sharing rule id r to depth 4 / 6) over AddRule(recurring | with condition | deleteWith c | expiring | one-shot | ordinary), AddFact over the rule id, RemRule, AddFact/RemFact(c), ClearLocation, clock += 3s, restart over the same storage, tick(L); cron service shaped like the built-in one (ephemeral, ticks to the captured instance) and like the external crolt one (persistent, resolved by name), both states. In every reached state the registrations held by the cron service must equal the live scheduled rules; every delivered tick must produce exactly the live scheduled rule's action value in its own location, nothing otherwise; a one-shot is gone after it ran. Concurrent: sys.System wired to the real cron.InternalCron/cron.Cron, 8 histories (same id in two locations, replace, overwrite, remove, clear, cascade, one-shot, restart), both states, every schedule with at most 2 (3) deviations: no evaluation after the ending call returned, live rules keep being evaluated in their own location, pending jobs == live scheduled rules.",
+  note="The recording Cronner is the harness's; the schedule part ties its built-in shape to the real InternalCron. An expired rule's registration may remain (only its ticks are judged). Two engines decide this property; bin/run.sh runs both and folds the evidence.",
+  design="2/C15"),
  "C16": dict(
   engine="SCHED+SEQ",
   technique="stateless schedule exploration of the in-memory cron under the controlled scheduler with virtual time, plus explicit-state BFS over operation histories (including reopen points and transaction-granularity interruptions of Add) of the real Bolt-backed crolt service",
